@@ -873,6 +873,17 @@ def o_C14(sc):
         b = quiet(f, sub, **k)
         if not res_eq(a, b):
             return 'C14 %s(L, indices=%s) differs from %s(sub-list)' % (name, idx, name)
+        if has_iv and len(idx) < len(L) and 'own0' not in sc and 'forms' not in sc and 'dup' not in sc:
+            # an averaging interval that just encloses every spike of the SELECTED trains (an unselected train may well
+            # spike outside it): what the unselected trains do must stay irrelevant
+            sp = [float(x) for t in sub for x in t.spikes]
+            ts_, te_ = sub[0].t_start, sub[0].t_end
+            if sp and all(t.t_start == ts_ and t.t_end == te_ for t in L):
+                lo, hi = (ts_ + min(sp)) / 2, (te_ + max(sp)) / 2
+                if ts_ <= lo < hi <= te_:
+                    k2 = dict(k); k2['interval'] = (lo, hi)
+                    if not res_eq(quiet(f, L, indices=idx, **k2), quiet(f, sub, **k2)):
+                        return 'C14 %s(L, indices=%s, interval=%s) differs from %s(sub-list, interval=…)' % (name, idx, (lo, hi), name)
         if 'matrix' not in name and len(sub) >= 3:
             c = quiet(f, *sub, **k)
             if not res_eq(b, c):
